@@ -69,6 +69,18 @@ def plan(rng, tier):
         cfg["dom"]["nk"] = rng.choice([300, 600])
         cfg["dom"]["ext"] = False
         pre = cfg["dom"]["nk"] // 2
+    # finer interleaving: a cursor step INSIDE a mutation -- during its n-th
+    # key comparison (object keys of class HK) or in the __del__ of a stored
+    # value the mutation releases (values of class FV); transient containers
+    cb = None
+    if not cfg["stored"] and cfg["leaf"] is not None and rng.random() < 0.3:
+        if fam[1] == "O" and is_mapping(cfg["kind"]) and rng.random() < 0.5:
+            cb = "fin"
+        elif fam[0] == "O":
+            cb = "cmp"
+            cfg["dom"]["kflavor"] = "hk"
+            cfg["dom"]["ext"] = False
+    cfg["cb"] = cb
     dom = Domain(cfg["dom"])
     kind = cfg["kind"]
     mapping = is_mapping(kind)
@@ -96,6 +108,12 @@ def plan(rng, tier):
         elif r < 0.1 + p_mut:
             m = rng.random()
             s = rng.choice(sorted(open_slots))
+            if cb and rng.random() < 0.5:
+                # the next mutation carries a cursor step inside it
+                steps.append(["cb", rng.choice(sorted(open_slots)),
+                              rng.choice(["next", "next", "idx", "len",
+                                          "list"]),
+                              rng.randint(-nk - 1, nk), rng.randrange(8)])
             if m < 0.18:
                 steps.append(["m", "@empty_parked", s])
             elif m < 0.3:
@@ -139,6 +157,10 @@ def plan(rng, tier):
 
 
 def simplify(plan):
+    if plan["cfg"].get("cb"):
+        p = copy.deepcopy(plan)
+        p["steps"] = [s for s in p["steps"] if s[0] != "cb"]
+        yield p
     if plan["cfg"]["stored"]:
         p = copy.deepcopy(plan)
         p["cfg"]["stored"] = False
@@ -191,6 +213,10 @@ class _Run(object):
         self.serial = 0
         self.cursors = {}
         self.leaf_event = {}     # slot -> what happened to the parked leaf
+        self.cb = cfg.get("cb")
+        self.pending_cb = None   # ["cb", slot, action, arg, n]
+        self.cb_violation = None
+        self.in_cb = False
 
     # -- values
     def value(self, kidx, vidx):
@@ -198,10 +224,15 @@ class _Run(object):
         if not self.mapping:
             return True
         if self.objvals:
+            if self.cb == "fin":
+                from ..keys import FV
+                return FV((kidx, self.serial))
             return ("v", kidx, self.serial)
         return self.dom.val(vidx)
 
     def vid(self, v):
+        if type(v).__name__ == "FV":
+            return ("fv",) + tuple(v.n)
         if isinstance(v, float) and v != v:
             return "nan"
         return v if not isinstance(v, list) else tuple(v)
@@ -216,12 +247,14 @@ class _Run(object):
     def set(self, kidx, vidx):
         v = self.value(kidx, vidx)
         k = self.dom.key(kidx)
+        # (noted first: a cursor step inside the store may already see it)
+        self.note(kidx, v)
         if self.mapping:
             self.c[k] = v
         else:
             self.c.add(k)
-        self.model[kidx] = v
-        self.note(kidx, v)
+        self.model[kidx] = self.vid(v) if self.cb == "fin" else v
+        v = None
 
     def delete(self, kidx):
         k = self.dom.key(kidx)
@@ -265,7 +298,49 @@ class _Run(object):
                 return ks, nxt
         return [], None
 
+    def _callback_step(self, *ignored):
+        """a cursor step from inside a mutation; never raises"""
+        if self.in_cb or self.pending_cb is None:
+            return
+        _, slot, action, arg, _n = self.pending_cb
+        self.pending_cb = None
+        self.in_cb = True
+        try:
+            st = ["c", slot, action]
+            if action in ("idx", "list"):
+                st.append(abs(arg) if action == "list" else arg)
+            out = self.cursor_step(st)
+            self.ctx.fault("step-in-" + ("finalizer" if self.cb == "fin"
+                                         else "comparison"))
+            self.ctx.interleaving(("cb", self.cb, action, out))
+        except Violation as v:
+            if self.cb_violation is None:
+                v.sig["in_callback"] = self.cb
+                self.cb_violation = v
+        except BaseException:
+            pass
+        finally:
+            self.in_cb = False
+
     def mutate(self, step):
+        from .. import keys
+        if self.pending_cb is None or self.cb is None:
+            return self._mutate(step)
+        if self.cb == "cmp":
+            keys.HOOK.arm(1 + self.pending_cb[4], self._callback_step)
+        else:
+            keys.FINAL.action = self._callback_step
+        try:
+            self._mutate(step)
+        finally:
+            keys.HOOK.disarm()
+            keys.FINAL.action = None
+            self.pending_cb = None
+        if self.cb_violation is not None:
+            v, self.cb_violation = self.cb_violation, None
+            raise v
+
+    def _mutate(self, step):
         name = step[1]
         if name == "set":
             self.set(step[2], step[3])
@@ -453,6 +528,9 @@ def execute(plan, ctx):
             raise Precondition("known C04 finding: inline-duplicate")
     for step in plan["steps"]:
         t = step[0]
+        if t == "cb":
+            run.pending_cb = step
+            continue
         if t == "m":
             run.mutate(step)
             ctx.ev("m", step[1])
@@ -489,6 +567,8 @@ def execute(plan, ctx):
         raise Violation(dict(base, oracle="end-listing-raised",
                              exc=type(e).__name__),
                         "listing the container at the end raised %r" % (e,))
+    if run.cb == "fin" and run.mapping:
+        got = [(k, run.vid(v)) for k, v in got]
     if not ops.same_value(got, want):
         raise Violation(dict(base, oracle="end-contents"),
                         "at the end the container lists %r, model %r" % (
